@@ -127,6 +127,8 @@ def judge(part, case, resps, ctx):
         if isinstance(res, dict) and "panic" in res:
             if b == "dec" and abs(yc) < 100 * e_yc:
                 part.count("div_below_resolution")
+            elif b == "dec" and not orc.in_box_value(ma / mb):
+                part.count("div_result_outside_decimal_range")     # the ratio itself is not representable with a safety margin
             else:
                 viol("panic", "a / b panicked: %s" % res["panic"])
         elif u == v:
